@@ -3,11 +3,12 @@ import sys
 from harness import common
 from symrun import loader
 loader.install()
-from harness.dsim import DExplore, make_jobs  # noqa: E402
+from harness.dsim import DExplore, make_jobs, make_random_jobs as make_drandom_jobs  # noqa: E402
 
 CONFIGS = {
     "stop-anywhere": dict(app=True, stoppable=True),
     "old-peer": dict(app=True, stoppable=True, peer_inert=True),
+    "ping-timeout": dict(app=False, stoppable=True, silent_after_connect=True),
 }
 
 
@@ -47,7 +48,7 @@ class Shutdown(DExplore):
 
 
 def jobs(tier):
-    return make_jobs(Shutdown, tier, 2, 3)
+    return make_jobs(Shutdown, tier, 2, 3) + make_drandom_jobs(Shutdown, tier)
 
 
 ASSUMPTIONS = [
